@@ -74,12 +74,25 @@ TInit ==
   /\ viol = {}
   /\ l = 1 /\ TLCSet(1, 0)
 
+\* A deviation of CFSync.tla from the code that the free-running executions found (1 of 1 568 thorough
+\* executions; outside the bounds of the replayed model): getCheckpointedCFHeaders called with a list that
+\* is ONE checkpoint shorter than the filter store's tip interval (resolveConflict returned the correct but
+\* shorter list of an "SH" peer).  numCheckpts = len(checkpoints) - startingInterval underflows, but
+\* (numCheckpts + maxCFCheckptsPerQuery - 1) wraps to 0 in uint32: no request is built and the function
+\* returns.  CFSync.tla's CPStart says "panic" for every si > n; that is the code only for si > n + 1.
+CPStartWrap ==
+  /\ pc = "cp" /\ nh < MaxSteps
+  /\ ~(FixSnapshotCheck /\ Len(good) > 0 /\ ~OnChain(lastC))
+  /\ (Len(fs) - 1) \div CPI = Len(good) + 1
+  /\ H(AfterCP(memF), NoCtx, ban, good, fs, memF, NoQ)
+  /\ Fin(Act("CPStart", "ret", <<>>, 0, 0, 0, 0, 0))
+
 TNext ==
   /\ l <= Len(Trace)
   /\ l' = l + 1
   /\ LET e == Trace[l]
      IN  IF e.i = 0 THEN Reset(e)
-         ELSE /\ Next
+         ELSE /\ (Next \/ CPStartWrap)
               /\ Match(act', e.act)
               /\ Obs' = e.obs
 
